@@ -610,6 +610,9 @@ func evalIterateStmt(vm *r.VM, node *syntax.IterateStmt) error {
 	// execIterationBlock, including set "currentKey" and "currentValue" to scope,
 	// and preDefined indication variables
 	execIterationBlockFn := func(key r.Element, v r.Element) error {
+		// like any other variable, the iteration variable stores its own copy of the item
+		// ('copycat by default' policy)
+		v = value.DuplicateValue(v)
 		// set pre-defined value
 		if nameLen == 1 {
 			if err := vm.SetElement(valueSlot, v); err != nil {
